@@ -23,8 +23,9 @@ One inductive `Restr` has a constructor per class (or family of classes sharing 
 `eqv` is Python's `==` on two such objects, `hashKey` the value whose (tuple / frozenset / str / int) hash `__hash__`
 returns, `mtch` is `match`.  Primitives that are not modelled (case folding, `re`, user functions, `str()`,
 `iflatten_instance`, the match of identity objects) are fields of `Env`, and so is the match of atoms *as a function of
-their canonical form* (`C02.Spec.atomCanon`: `atom.match` itself is C04's subject): the theorems hold for every
-environment.  Boolean nodes are evaluated by their propositional reading, which C06 (`match_eq_eval`) proves equal to
+their canonical form* (`C02.Spec.atomCanon`: `atom.match` itself is C04's subject, and that C04's `atomMatch` is
+such a function is proved in `Props/C07.lean`: `atom_match_depends_only_on_canon`, `atom_match_factors_through_canon`):
+the theorems hold for every environment.  Boolean nodes are evaluated by their propositional reading, which C06 (`match_eq_eval`) proves equal to
 the loops of `boolean.py`.
 -/
 namespace Pkgcore.C07
